@@ -441,7 +441,7 @@ func C11(p *Prog, r *Run) {
 		r.Check(okU, "Organism.UpdatePhenotype", p.Pos(up.Pos()), "always rebuilds and stores", "UpdatePhenotype does not unconditionally rebuild the cached network")
 	})
 
-	r.Rule("C11.8", "no stale phenotype: the network cached in Genome.Phenotype is written only by Genesis (the network it just built) or cleared; a function that expresses a genome and afterwards changes the genome's genes or nodes clears the cache (or expresses it again) before it returns - otherwise NewOrganism adopts a network that lacks the change and Organism.Phenotype() never rebuilds it", func() {
+	r.Rule("C11.8", "no stale phenotype (a method that changes the structure of its receiver genome drops the cached network - defect F19): the network cached in Genome.Phenotype is written only by Genesis (the network it just built) or cleared; a function that expresses a genome and afterwards changes the genome's genes or nodes clears the cache (or expresses it again) before it returns - otherwise NewOrganism adopts a network that lacks the change and Organism.Phenotype() never rebuilds it", func() {
 		r.c11StaleCache(gen)
 	})
 
@@ -798,7 +798,7 @@ func (r *Run) c11StaleCache(gen *ssa.Function) {
 	p := r.P
 	cache := p.Field(PkgG, "Genome", "Phenotype")
 	writers := map[*ssa.Function]bool{}
-	for _, n := range []string{"Genome.geneInsert", "Genome.nodeInsert", "Genome.addNode"} {
+	for _, n := range []string{"Genome.geneInsert", "Genome.nodeInsert", "Genome.addNode", "Genome.addNodes"} {
 		if f := p.FuncOpt(PkgG, n); f != nil {
 			writers[f] = true
 		}
@@ -881,6 +881,99 @@ func (r *Run) c11StaleCache(gen *ssa.Function) {
 		}
 		r.Fn(FuncName(fn))
 	}
+	// (b) whoever changes an EXISTING genome drops its cache (defect F19): a method that inserts a gene or node into
+	// its receiver, replaces one of its lists or switches one of its genes on or off reaches no return with a cache
+	// that was filled before the change - a clear (or a fresh Genesis) follows the change on every path, or a clear
+	// dominates it and the method never expresses the genome itself. NewOrganism adopts the cache and
+	// mutateAddLink consults it; nothing else tells them that it is out of date.
+	nCh := 0
+	for _, fn := range p.SrcFuncs() {
+		if fn.Pkg == nil || fn.Pkg.Pkg.Path() != PkgG || fn == gen || writers[fn] || fn.Signature.Recv() == nil || len(fn.Params) == 0 || fn.Synthetic != "" {
+			continue
+		}
+		if pt, ok := fn.Signature.Recv().Type().(*types.Pointer); !ok || pt.Elem().String() != PkgG+".Genome" {
+			continue
+		}
+		x := ssa.Value(fn.Params[0])
+		tmx := NewTermer(fn)
+		clears := func(in ssa.Instruction) bool {
+			if st, ok := in.(*ssa.Store); ok && StoredField(st) == cache && isNil(st.Val) && st.Addr.(*ssa.FieldAddr).X == x {
+				return true
+			}
+			if c, ok := in.(ssa.CallInstruction); ok && c.Common().StaticCallee() == gen && len(c.Common().Args) > 0 && c.Common().Args[0] == x {
+				return true
+			}
+			return false
+		}
+		expresses := len(CallsTo(fn, gen)) > 0
+		var clearStores []*ssa.Store
+		for _, st := range FieldStores(fn, cache) {
+			if isNil(st.Val) && st.Addr.(*ssa.FieldAddr).X == x {
+				clearStores = append(clearStores, st)
+			}
+		}
+		var changes []ssa.Instruction
+		Instrs(fn, func(_ *ssa.BasicBlock, _ int, in ssa.Instruction) {
+			switch y := in.(type) {
+			case ssa.CallInstruction:
+				if writers[y.Common().StaticCallee()] && len(y.Common().Args) > 0 && y.Common().Args[0] == x {
+					changes = append(changes, in)
+				}
+			case *ssa.Store:
+				f := StoredField(y)
+				fa, _ := y.Addr.(*ssa.FieldAddr)
+				if fa == nil {
+					return
+				}
+				if lists[f] && fa.X == x {
+					changes = append(changes, in)
+				}
+				if f == enabled && c11IsRecvGene(tmx.Of(fa.X), 0) {
+					changes = append(changes, in)
+				}
+			}
+		})
+		for _, ch := range changes {
+			nCh++
+			dominated := false
+			if !expresses {
+				for _, st := range clearStores {
+					if (st.Block() == ch.Block() && instrIndex(st) < instrIndex(ch)) || (st.Block() != ch.Block() && st.Block().Dominates(ch.Block())) {
+						dominated = true
+					}
+				}
+			}
+			var path []string
+			if !dominated {
+				path = FindPath(p, PathQuery{Fn: fn, FlagBlind: true, StartAfter: ch, Target: IsReturn, Avoid: clears})
+			}
+			r.Check(dominated || path == nil, "cache-dropped:"+FuncName(fn), p.Pos(ch.Pos()), "this change of the receiver genome is accompanied by dropping (or rebuilding) its cached network",
+				FuncName(fn)+" changes the structure of its receiver (a gene or node inserted, a gene switched on or off) and can return with Genome.Phenotype still holding the network built before the change: NewOrganism adopts it (the organism is evaluated on a phenotype that does not express its genome) and mutateAddLink consults it for its recurrence test (a node added meanwhile has no counterpart in it)", path...)
+		}
+		r.Fn(FuncName(fn))
+	}
+	r.Floor("changes of an existing genome by its own methods", nCh, 6)
 	r.Floor("stores to Genome.Phenotype", nStores, 1)
 	r.Note("C11.8: %d change(s) of a genome after its expression inside one function", nSites)
+}
+
+// c11IsRecvGene: the term denotes (possibly) an element of the receiver's gene list: recv.Genes[*], or a merge one
+// of whose alternatives is such an element. A copy made from such an element (a constructor call) is not one.
+func c11IsRecvGene(t *Term, depth int) bool {
+	if t == nil || depth > 6 {
+		return false
+	}
+	switch t.Op {
+	case "elem":
+		if len(t.Args) > 0 && t.Args[0].Op == "field" && t.Args[0].Name == "Genes" && len(t.Args[0].Args) > 0 && t.Args[0].Args[0].Op == "recv" {
+			return true
+		}
+	case "phi", "loop":
+		for _, a := range t.Args {
+			if c11IsRecvGene(a, depth+1) {
+				return true
+			}
+		}
+	}
+	return false
 }
